@@ -131,6 +131,10 @@ def run(ctx):
                     truncs.append(i)
             elif v == "0" and (p in oe_loads or (defs.get(p) is not None and defs[p].op == "getelementptr" and defs[p].ops and defs[p].ops[0] in oe_loads and re.search(r'i64 0\s*$', defs[p].text.split(", !dbg")[0]))):
                 truncs.append(i)
+    # memset(old_end, 0, n) / zero-length-preserving library cuts count as truncation too
+    for c in f.calls():
+        if c.callee and (c.callee.startswith("llvm.memset") or c.callee == "memset") and len(c.args) >= 2 and c.args[0] in oe_loads and c.args[1] == "0":
+            truncs.append(c)
     rets = [i for i in f.insts() if i.op == "ret"]
     nloc = 0
     for k, c in enumerate(cbs):
